@@ -103,12 +103,12 @@ NEEDS5 = {
  "C10": "a parsed or built board with an en-passant square and a non-zero half-move clock; hash_without_ep / same_position",
  "C11": "two boards differing only in an a-file castling right (standard Q/q)",
  "C12": "a parsed or built stalemate in which the only pseudo-legal move is an en-passant capture whose victim shields the king on a diagonal",
- "C13": "",
+ "C13": "a double pawn push that uncovers a diagonal check while an enemy pawn stands beside the pushed pawn (the en-passant capture does not resolve the check)",
  "C14": "a null move with an enemy rook on the next mover's king's diagonal (or a bishop on its file/rank) and a lone piece between them",
  "C15": "a Chess960 castle with the rook standing next to the king (a one-square king move onto the own rook)",
  "C16": "the listener aborts on a batch of a generator that is not the last one (start position, abort on the first call)",
  "C17": "a hand-built batch whose destination set contains the origin square",
- "C18": "",
+ "C18": "iter_subsets() of the empty bitboard (one subset expected)",
  "C19": "a non-ASCII character whose low seven bits equal an accepted character",
  "C20": "three like pieces that can reach one square, the one sharing the mover's file scanned before the one sharing its rank",
 }
@@ -121,7 +121,7 @@ NEEDS6 = {
  "C08": "a half-move clock field above 100 (101, 255, 65535)",
  "C09": "a builder state with an en-passant square and a non-zero half-move clock (its record no longer parses)",
  "C12": "a position with a legal move, clock below 100 and only kings plus at most two minor pieces",
- "C13": "",
+ "C13": "a pawn pinned on a diagonal whose en-passant capture lands on that diagonal between itself and its own king",
  "C20": "an orthodox board where the side to move has lost one castling right; display_uci_move of the remaining castle",
 }
 ONLY = [a for a in sys.argv[1:] if not a.startswith("--")]
